@@ -505,7 +505,12 @@ class Channel(BaseChannel):
         body = bytes()
         while len(body) < body_size:
             if not self._inbound:
-                self.check_for_errors()
+                try:
+                    self.check_for_errors()
+                except AMQPMessageError as why:
+                    if not self.is_open:
+                        raise
+                    self.exceptions.insert(0, why)
                 time.sleep(IDLE_WAIT)
                 continue
             body_piece = self._inbound.popleft()
